@@ -344,6 +344,18 @@ class PosBase(np.ndarray):
             self._clear_dependent_caches()
         return super().__array_wrap__(array, *args, **kwargs)
 
+    def __array_function__(self, func, types, args, kwargs):
+        """NumPy functions that write into a position array (`np.copyto(p, ...)`, `np.place`, `np.putmask`, `out=p`) change it"""
+        result = super().__array_function__(func, types, args, kwargs)
+        written = [kwargs.get(name) for name in ("out", "dst")]
+        if func in (np.copyto, np.place, np.putmask, np.put, np.put_along_axis, np.fill_diagonal):
+            written += [args[0] if args else kwargs.get("arr", kwargs.get("a"))]
+        for target in written:
+            for array in target if isinstance(target, tuple) else (target,):
+                if isinstance(array, PosBase):
+                    array._clear_dependent_caches()
+        return result
+
     def _changing_in_place(name):
         """ndarray methods that change the contents in place drop the caches first, as item assignment does"""
 
